@@ -345,6 +345,7 @@ func groupSamRecords(sam io.Reader, cHeader chan biogosam.Header, chnl chan samR
 	s, err := biogosam.NewReader(sam)
 	if err != nil {
 		cerr <- err
+		return
 	}
 
 	cHeader <- *s.Header()
